@@ -7,7 +7,7 @@
 EXTENDS KeyLife, Pools
 CONSTANTS NObj, MaxOps, Kind, PropId
 VARIABLES created, shared, seen, ops
-M == INSTANCE MultiSA WITH TypesPerObject <- TRUE
+M == INSTANCE MultiSA WITH TypesPerObject <- TRUE, UseOnce <- (Kind = "child")
 
 EncrOf(o) == << 128, 256, 192 >>[((o - 1) % 3) + 1]
 IntegOf(o) == << "md5", "sha256", "sha1" >>[((o - 1) % 3) + 1]
@@ -27,7 +27,31 @@ ChildUse(o, q) ==      \* q: position in the history (a fresh nonce and fresh na
 \* ---- ike
 Nonce(o) == FillT("seeded", 32 + o, Seed + 40 + o)
 PeerX(o) == FillT("seeded", 20, Seed + 50 + o)        \* the peer's exponent
-IkeNew(o) ==
+IkeNew(o, pos) ==
   LET px == "I" \o ToString(o) \o "_" su == SuiteOf(o) g == GrpOf(o)
       st == NewIkeSaStepP(px, PropId, Nm(o), su, g, PubT(g, PeerX(o)), Nonce(o), D(8, o), D(8, 10 + o), [mode |-> "det", seed |-> Seed + o]) IN
-  st @@ [defs |-> IkeKeyDefsP(px, su, Nonce(o), SharedT(g, PeerX(o), RefT(0, "pub", DhLen(g))), Lit(D(8, o)), Lit(D(8, 10 + o)))]
+  st @@ [defs |-> IkeKeyDefsP(px, su, Nonce(o), SharedT(g, PeerX(o), RefT(pos, "pub", DhLen(g))), Lit(D(8, o)), Lit(D(8, 10 + o)))]
+IkeUse(o) ==
+  LET px == "I" \o ToString(o) \o "_" su == SuiteOf(o) x == IkeKeyExpectP(px, su) IN
+  Step("sa_probe", PropId, FALSE, [sa |-> Nm(o)] @@ ProbeArgsP(px, su),
+       [panic |-> FALSE, p_prf_d |-> x.p_prf_d, p_integ_i |-> x.p_integ_i, p_integ_r |-> x.p_integ_r, p_prf_i |-> x.p_prf_i, p_prf_r |-> x.p_prf_r,
+        p_ct_i |-> x.p_ct_i, p_ct_r |-> x.p_ct_r])
+
+StepOf(q) == LET op == ops[q][1] o == ops[q][2] IN
+             IF Kind = "child" THEN (IF op = "new" THEN ChildNew(o) ELSE ChildUse(o, q))
+             ELSE (IF op = "new" THEN IkeNew(o, q) ELSE IkeUse(o))
+\* position of the step that created object o, counted in the emitted vector (the child vectors start with the SaNew of the IKE SA)
+Offset == IF Kind = "child" THEN 1 ELSE 0
+NewPos(o) == Offset + (CHOOSE q \in 1..Len(ops) : ops[q] = << "new", o >>)
+Vec == VectorD("multisa_" \o Kind, << >>,
+         (IF Kind = "child" THEN << SaNew("A", BaseSuite, BaseKeys) >> ELSE << >>) \o [q \in 1..Len(ops) |-> StepOf(q)])
+
+Init == M!Init
+Next == M!Next
+\* a behaviour is printed when it cannot go on (length bound) and some object is used after ANOTHER one was created behind it
+UsedAfterOther == \E q \in 1..Len(ops) : ops[q][1] = "use" /\ \E r \in 1..(q - 1) : ops[r][1] = "new" /\ ops[r][2] # ops[q][2] /\ r > NewPos(ops[q][2]) - Offset
+\* (a Child SA object is keyed ONCE: GenerateKeyForChildSA on an object that already holds keys is outside what C08 quantifies over)
+Full == IF Kind = "child" THEN Len(ops) = 2 * NObj ELSE Len(ops) = MaxOps
+Emit == (Full /\ UsedAfterOther) => PrintT(ToJson(Vec))
+Sound == M!OwnParams
+=============================================================================
